@@ -325,6 +325,10 @@ func checkC02(c *Ctx, r *Report) {
 
 	// the spec side normaliser (shared with C01.c)
 	ruleSlashCollapse(c, r, "C02.e", "common.RemoveDuplicateSlash", "the documented path collapses slash runs of any length")
+
+	if tierThorough {
+		witnessSameRegistrations(c, r, "C02.a")
+	}
 }
 
 // checkContextPassThrough: the template context hands the flattened metadata to the
